@@ -235,6 +235,68 @@ theorem persistent_marks_eq_device (toc0 : Toc) (hnd : (toc0.elems.map (·.ident
     exact ⟨e, he, rfl⟩
   exact xinv_result toc0 pers hnd _ (xrun_inv _ toc0 pers hnd hE hmem _ (xinit_inv toc0 pers x0 hx) cs)
 
+/-- progress of the extended-type phase: from every state reachable under any schedule, some continuation
+(worker iterations and deliveries of the awaited replies) runs the done callback: `connected` is not
+prevented by duplicates or stale replies. -/
+theorem ext_phase_completes (toc0 : Toc) (hnd : (toc0.elems.map (·.ident)).Nodup)
+    (hsz : ∀ e ∈ toc0.elems, e.ident < 65536) (pers : Nat → Bool)
+    (x0 : ExtF) (hx : refreshDone toc0 = .ok (some x0)) (cs : List XChoice) :
+    ∃ more : List XChoice, ((XSys.run pers ⟨x0, [], []⟩ cs).run pers more).x.done = 1 := by
+  have hE : ∀ j ∈ extIdents toc0, j < 65536 := by
+    intro j hj
+    simp only [extIdents, List.mem_map, List.mem_filter] at hj
+    obtain ⟨e, ⟨he, _⟩, rfl⟩ := hj
+    exact hsz e he
+  have hmem : ∀ j ∈ extIdents toc0, j ∈ toc0.elems.map (·.ident) := by
+    intro j hj
+    simp only [extIdents, List.mem_map, List.mem_filter] at hj ⊢
+    obtain ⟨e, ⟨he, _⟩, rfl⟩ := hj
+    exact ⟨e, he, rfl⟩
+  have hi := xrun_inv _ toc0 pers hnd hE hmem _ (xinit_inv toc0 pers x0 hx) cs
+  obtain ⟨more, _, h⟩ := xcompletes _ toc0 pers hnd hE hmem _ _ hi (Nat.le_refl _)
+  exact ⟨more, h⟩
+
+/-- **the parameter table when `connected` is signalled.**  Download (`param_fetched_eq_device`) followed by the
+extended-type phase: for a table with pairwise different names, under every schedule, once the done callback
+has run every device entry `i` is found under its (group, name) with the device's index, type, access and
+extended flag, and `persistent` is true exactly if the entry is extended and the device reports it persistent. -/
+theorem param_table_when_connected (items : List Item) (hn : items.length ≤ 65536) (hu : UniqueNames items)
+    (pers : Nat → Bool) (x0 : ExtF) (hx : refreshDone (tocOf (specElems specParam items)) = .ok (some x0))
+    (cs : List XChoice) :
+    let s := XSys.run pers ⟨x0, [], []⟩ cs
+    s.x.done = 1 → ∀ i it, items[i]? = some it →
+      s.x.toc.get it.group it.name =
+        some { specParam i it with persistent := (specParam i it).extended && pers i } ∧
+      (s.x.toc.elems.map (·.ident)).Perm (List.range items.length) := by
+  intro s hdone i it hit
+  have hnd := tocOf_idents_nodup specParam specParam_ok items hu
+  have hp := specElems_pairwise specParam specParam_ok items hu
+  have hsz : ∀ e ∈ (tocOf (specElems specParam items)).elems, e.ident < 65536 := by
+    intro e he
+    obtain ⟨j, jt, hj, rfl⟩ := (mem_specElems specParam items e).mp ((mem_elems_tocOf _ hp e).mp he)
+    have : j < items.length := by
+      rcases Nat.lt_or_ge j items.length with h | h
+      · exact h
+      · rw [List.getElem?_eq_none h] at hj; cases hj
+    show j < 65536
+    omega
+  have hres := (persistent_marks_eq_device _ hnd hsz pers x0 hx cs).2 hdone
+  have hget := (toc_eq_device_table specParam specParam_ok items hu).1 i it hit
+  constructor
+  · show s.x.toc.get it.group it.name = _
+    rw [hres, mapElems_get, hget.1]
+    simp only [Option.map_some, Option.some.injEq]
+    cases h : ((specParam i it).extended && pers i) <;> simp_all [specParam]
+  · show (s.x.toc.elems.map (·.ident)).Perm _
+    rw [hres, mapElems_elems, List.map_map]
+    have h1 : (fun e : Elem => e.ident) ∘ (fun e => if (e.extended && pers e.ident) = true then { e with persistent := true } else e)
+        = fun e => e.ident := by
+      funext e; simp only [Function.comp]; split <;> rfl
+    rw [h1]
+    have := (elems_tocOf_perm _ hp).map (·.ident)
+    rw [specElems_idents specParam specParam_ok] at this
+    exact this
+
 /-- without extended parameters there is no query phase: `connected` follows the download directly -/
 theorem no_extended_no_queries (toc0 : Toc) (h : ∀ e ∈ toc0.elems, e.extended = false) :
     refreshDone toc0 = .ok none := by
